@@ -10,6 +10,7 @@ From TP Require Import Model.Prelude Extracted Model.Json Model.Api Proofs.ConcP
 
 Theorem C16_single_section_handlers : collection_mutators_atomic = true /\ toxic_mutators_atomic = true.
 Proof. split; reflexivity. Qed.
+Print Assumptions C16_single_section_handlers.
 
 (** of any number of concurrent creates of one name - same or different listen addresses - at
     most one succeeds, in every order of their critical sections *)
@@ -20,6 +21,7 @@ Theorem C16_one_create_wins : forall e name, name <> ""%string ->
   (find_proxy s name <> None ->
    count_status status_created (fst (run_resps e s (map (fun su => create_req name (fst su) (snd su)) specs))) = 0%nat).
 Proof. exact one_create_wins. Qed.
+Print Assumptions C16_one_create_wins.
 
 (** of any number of concurrent deletes of an existing proxy exactly one succeeds *)
 Theorem C16_one_delete_wins : forall e name, name <> ""%string -> forall (k : nat) s,
@@ -27,9 +29,11 @@ Theorem C16_one_delete_wins : forall e name, name <> ""%string -> forall (k : na
   count_status status_no_content (fst (run_resps e s (repeat (delete_req name) k))) =
   match find_proxy s name with Some _ => Nat.min 1 k | None => 0%nat end.
 Proof. exact one_delete_wins. Qed.
+Print Assumptions C16_one_delete_wins.
 
 (** finding F9 (known): enable / disable / update are two sections - the lookup under the
     collection's read lock (and the defaults read without any lock), then Proxy.Update under the
     proxy's lock - so a delete can fall in between and Update then starts a proxy nobody lists *)
 Theorem C16_update_is_two_sections : proxy_update_two_sections = true.
 Proof. reflexivity. Qed.
+Print Assumptions C16_update_is_two_sections.
